@@ -39,6 +39,7 @@ def cases(tier, seed):
     for L in range(1, maxlen + 1):
         for k in range(10 if tier == "quick" else 30):
             out.append({"sub": "qft", "L": L, "k": k})
+    out += [{"sub": "qft_large", "L": L, "k": k} for L in (range(9, 13) if tier == "quick" else range(7, 15)) for k in range(1 if tier == "quick" else 4)]
     out += [{"sub": "sv", "i": i} for i in range(160 if tier == "quick" else 30000)]
     out += [{"sub": "qpe", "i": i} for i in range(40 if tier == "quick" else 2400)]
     out += [{"sub": "iqpe", "i": i} for i in range(24 if tier == "quick" else 1200)]
@@ -61,6 +62,50 @@ def register_dft(n, qlist, inverse=False, bitrev_out=False, bitrev_in=False):
     # F is indexed by register VALUE with qlist[0] as bit 0 (least significant).  Express it as a matrix on the register qubits
     # in refsim convention (first listed target = most significant index bit of the small matrix): use targets = reversed(qlist)
     return refsim.embed(F, list(reversed(qlist)), [], n)
+
+
+def register_dft_on_state(psi, qlist, inverse=False, bitrev_out=False, bitrev_in=False):
+    """register_dft(len(qlist), qlist, ...) @ psi without the matrix (FFT): psi flat with qubit 0 most significant, register = all qubits."""
+    L = len(qlist)
+    order = list(reversed(qlist))                       # axis order that makes the flat index the register value (qlist[0] = bit 0)
+    v = np.asarray(psi, dtype=complex).reshape((2,) * L).transpose(order).reshape(-1)
+    rev = np.array([int(format(x, f"0{L}b")[::-1], 2) for x in range(2 ** L)])
+    if bitrev_in:
+        v = v[rev]
+    y = np.fft.fft(v, norm="ortho") if inverse else np.fft.ifft(v, norm="ortho")
+    if bitrev_out:
+        y = y[rev]
+    return y.reshape((2,) * L).transpose(np.argsort(order)).reshape(-1)
+
+
+def run_qft_large(case, ctx):
+    """Registers of 9..14 qubits (rotation angles down to pi/2**13): the circuit applied to a random state against the FFT."""
+    from tangelo.toolboxes.ansatz_generator.ansatz_utils import get_qft_circuit
+    rng, pr, s = case_rng(ctx.seed, "C20", "qft_large", case["L"], case["k"])
+    L = case["L"]
+    # the FFT form of the oracle is first held to the dense matrix form on a small register
+    ql = pr.sample(range(3), 3)
+    v3 = rng.normal(size=8) + 1j * rng.normal(size=8)
+    for inv in (False, True):
+        for bo, bi in ((False, False), (True, False), (False, True)):
+            if refsim.dist(register_dft(3, ql, inv, bo, bi) @ v3, register_dft_on_state(v3, ql, inv, bo, bi)) > 1e-12:
+                raise RuntimeError("harness error: FFT form of the DFT oracle disagrees with its matrix form")
+    qlist = list(range(L)) if case["k"] == 0 else pr.sample(range(L), L)
+    psi = rng.normal(size=2 ** L) + 1j * rng.normal(size=2 ** L)
+    psi /= np.linalg.norm(psi)
+    for inverse in (False, True):
+        for swap in (True, False):
+            c = get_qft_circuit(qlist, inverse=inverse, swap=swap)
+            if c.width > L:
+                ctx.check("qft_is_dft", False, "QFT circuit acts outside the listed qubits", {"qubits": qlist, "width": c.width})
+                continue
+            got = refsim.run(gen.from_circuit(c), L, initial=psi)
+            exp = register_dft_on_state(psi, qlist, inverse=inverse, bitrev_out=(not swap and not inverse), bitrev_in=(not swap and inverse))
+            d = refsim.dist(got, exp)
+            ctx.tab("qft_register_size", str(L))
+            ctx.check("qft_is_dft", d < TOL, f"QFT circuit on {L} qubits (inverse={inverse}, swap={swap}) is not the discrete Fourier transform of the register",
+                      lambda: {"qubits": qlist, "n": L, "inverse": inverse, "swap": swap, "max_diff": d, "n_gates": c.size})
+            ctx.nontrivial(("qft_large", tuple(qlist), inverse, swap))
 
 
 def run_qft(case, ctx):
@@ -268,6 +313,8 @@ def run_case(case, ctx):
     sub = case["sub"]
     if sub == "qft":
         run_qft(case, ctx)
+    elif sub == "qft_large":
+        run_qft_large(case, ctx)
     elif sub == "sv":
         run_sv(case, ctx)
     elif sub == "qpe":
